@@ -829,7 +829,25 @@ Proof.
 Qed.
 
 Definition next_dropped (dropped : bool) (o : op) : bool :=
-  match o with HDrop => true | HServe => dropped | _ => false end.
+  match o with HDrop => true | HServe => dropped | HRestart => dropped | _ => false end.
+
+(* a clean restart keeps hull and index of every chunk *)
+Lemma find_chunk_restart ci c k' : find_chunk (ci_restart ci) c = Some k' ->
+  exists k, find_chunk ci c = Some k /\ k' = mkinfo (k_id k) (k_min k) (k_max k) (if k_bad k then None else k_root k) 0 false.
+Proof.
+  induction ci as [|a ci IH]; cbn [ci_restart map find_chunk k_id]; [discriminate|]. fold (ci_restart ci).
+  destruct (k_id a =? c); [intros H; injection H as <-; exists a; split; reflexivity|exact IH].
+Qed.
+Lemma restart_inv st : J st -> J (mkp (p_chunks st) (ci_restart (p_ci st)) []) /\
+  (synced st -> synced (mkp (p_chunks st) (ci_restart (p_ci st)) [])).
+Proof.
+  intros [Hids Hcne Hsorted Hi64 Hinv]. split.
+  - constructor; cbn [p_chunks p_ci]; try assumption. intros c d k' Hin Hf.
+    destruct (find_chunk_restart _ _ _ Hf) as (k & Hk & ->). destruct (Hinv c d k Hin Hk) as [Hh Hi]. split.
+    + intros i Hi0. apply Hh. exact Hi0.
+    + cbn [k_bad k_root]. intros _ rs Hr. destruct (k_bad k) eqn:Eb; [discriminate|]. apply Hi; [reflexivity|exact Hr].
+  - unfold synced. cbn [p_ci p_chunks]. intros <-. unfold ci_restart. rewrite map_map. reflexivity.
+Qed.
 
 Lemma step_inv o st dropped :
   J st -> (dropped = false -> synced st) -> op_ok o ->
@@ -840,7 +858,7 @@ Lemma step_inv o st dropped :
   alld_of (p_chunks st') = alld_of (p_chunks st) ++ op_data o /\
   ids_of (p_chunks st') = match o with HBatch segs => ids_after (ids_of (p_chunks st)) segs | _ => ids_of (p_chunks st) end.
 Proof.
-  intros HJ Hsy Hok Hb Hso. destruct o as [segs| | | |o1 o2]; cbn [step op_data next_dropped] in *.
+  intros HJ Hsy Hok Hb Hso. destruct o as [segs| | | |o1 o2| |]; cbn [step op_data next_dropped] in *.
   - destruct (Hb segs eq_refl) as [Hd Hdisc].
     destruct (run_segs_inv fixed_variant eq_refl segs st iw_init [] true HJ (Hsy Hd)) as (H1 & H2 & H3 & H4); auto.
     + left. split; reflexivity.
@@ -856,6 +874,10 @@ Proof.
     assert (Est : st' = mkp (p_chunks st) (ci_sync (p_ci st) (p_chunks st)) (p_queue st')).
     { destruct st' as [c i q]. cbn [p_chunks p_ci p_queue] in *. subst. reflexivity. }
     rewrite Est. split; [apply (J_queue _ _ H1)|]. split; [intros _; exact H2|]. split; reflexivity.
+  - rewrite app_nil_r. destruct (restart_inv st HJ) as [H1 H2]. split; [exact H1|]. split; [intros E; apply H2; apply Hsy; exact E|].
+    split; reflexivity.
+  - rewrite app_nil_r. destruct (sync_inv st HJ) as [H1 H2]. unfold describe.
+    split; [apply (J_queue _ _ H1)|]. split; [intros _; exact H2|]. split; reflexivity.
 Qed.
 
 Lemma run_inv : forall h st dropped,
@@ -930,10 +952,11 @@ Proof. exact complete_fixed. Qed.
 (* ---------- non-vacuity ---------- *)
 Definition nonvac_hist : list op :=
   [HBatch [mkseg 1 false (repeat 0 3 ++ repeat 5 246 ++ [10])];
+   HRestart;
    HBatch [mkseg 1 true (repeat 10 250)];
    HBatch [mkseg 1 false (repeat 10 5); mkseg 2 false (repeat 10 245 ++ repeat 20 6)];
    HRead (Some 10) (Some 10);
-   HDrop; HSync; HRead (Some 7) None; HServe;
+   HDrop; HSync; HRead (Some 7) None; HDescribe; HServe; HRestart;
    HBatch [mkseg 2 false (repeat 20 250)]].
 
 Lemma nonvac_ok : hist_sorted nonvac_hist /\ hist_disciplined nonvac_hist /\ no_write_after_drop nonvac_hist /\
